@@ -162,6 +162,25 @@ def info_key(ctx, rule="INFO-KEY"):
                     ctx.check(not bad, rule, "%s: key test independent of the WHERE clause" % short(f.name), "", "the duplicate-key test / re-sort of %s runs only under a condition on the "
                               "statement's WHERE clause (%s): an update that assigns a key column under the other form can leave duplicate or unsorted keys" % (short(f.name), bad[:1]),
                               f.loc(), fn=f.name, key="%s|%s|where-independent" % (rule, short(f.name)))
+            if via_set and not (via_err or via_map):
+                # (a) the test runs whenever SOME assigned column is a key column
+                guard = None
+                for b in sites[:1]:
+                    for (e, tr, g) in S.bool_facts_at(b):
+                        mm = re.search(r"call@(\d+):.*Iterator>?::(any|all|position|find)$", e)
+                        if mm and tr is True:
+                            guard = mm.group(2)
+                ctx.check(guard == "any", rule, "%s: key test runs when any assigned column is a key" % short(f.name), str(guard),
+                          "the duplicate-key test of %s is guarded by Iterator::%s over the assignments: an update that assigns a key column together with a non-key column "
+                          "skips the test and the re-sort" % (short(f.name), guard), f.loc(), fn=f.name, key="%s|%s|any-key" % (rule, short(f.name)))
+                # (b) the predicted key uses the LAST assignment to a column, as the apply loop (forward, later stores win) does
+                searches = [(c, cname(prog, t)) for c in unit for bb, t in c.calls()
+                            if re.search(r"Iterator>?::(find|position|find_map)$|::(rfind|rposition)$", cname(prog, t)) and "(std::string::String, internal::value::Value)" in (t.get("written") or "")]
+                from_end = [x for x in searches if "Rev<" in x[1] or x[1].endswith(("rfind", "rposition"))]
+                ctx.check(bool(searches) and len(from_end) == len(searches), rule, "%s: predicted keys use the last assignment to a column" % short(f.name), str([x[1][-40:] for x in searches]),
+                          "the key pre-check of %s looks up the assignment for a key column from the front of the SET list (%s) while the assignments are applied in order, the last one "
+                          "winning: `SET K = 7, K = 2` is checked as 7 and stored as 2" % (short(f.name), [x[1][-40:] for x in searches]), f.loc(), fn=f.name,
+                          key="%s|%s|last-wins" % (rule, short(f.name)))
             ok = via_err or via_map or via_set
             how = "key test leads to an error" if via_err else ("rows keyed by the primary-key vector in a BTreeMap" if via_map else (
                 "duplicate test on the key vectors + re-sort by key" if via_set else ""))
@@ -380,6 +399,12 @@ def limits(ctx):
             ok0 = True
     ctx.check(ok32 and ok0, R, "column count limits enforced", "", "create_table does not refuse `columns.len() > 32` / an empty column list before mutating", f.loc(), fn=f.name)
 
+    limit_w(ctx)
+
+
+def limit_w(ctx):
+    prog = ctx.prog
+    f = prog.fn(PK + "create_table_with_name")
     R = "LIMIT-W"
     ctx.rule(R, "catalog column widths for table and column names are read from the make_*_table definitions; wherever they disagree, create_table must pre-validate its rows "
                 "against every catalog table (rule PRE-VALID), so that the narrowest width is enforced as an argument error before any mutation")
@@ -394,6 +419,13 @@ def limits(ctx):
                 nm = [x for x in deep_strs(Sg, args[0]) if re.fullmatch(r"\w+", x)]
                 if nm:
                     widths[(tbl, nm[0])] = int(args[1][2:])
+    # the definitions built into the library describe the catalog tables of every real package: widths are the format's
+    REFW = {("_Tables", "Name"): 64, ("_Columns", "Table"): 64, ("_Columns", "Name"): 64, ("_Validation", "Table"): 32, ("_Validation", "Column"): 32}
+    for k, w in sorted(REFW.items()):
+        ctx.check(widths.get(k) == w, R, "%s.%s is %d characters wide" % (k[0], k[1], w), str(widths.get(k)),
+                  "the built-in definition of %s.%s is %s characters wide; packages in the field declare %d: create_table's pre-validation (against the built-in definition) and the "
+                  "actual insert (against the file's definition) then disagree, and a name between the two widths is refused only after part of the catalog was written" % (
+                      k[0], k[1], widths.get(k), w), f.loc(), fn=f.name, key="%s|refwidth|%s.%s" % (R, k[0], k[1]))
     tn = {k: v for k, v in widths.items() if k in (("_Columns", "Table"), ("_Tables", "Name"), ("_Validation", "Table"))}
     cn = {k: v for k, v in widths.items() if k in (("_Columns", "Name"), ("_Validation", "Column"))}
     ctx.floor(R, "catalog name columns found", len(tn) + len(cn), 5)
